@@ -56,6 +56,30 @@ def cases(tier, rng):
             else:
                 targs.append(a)
         out.append(("(eval %s (%s) %s)" % (rng.choice(NAMES), " ".join(targs), ss_from(d)), "random"))
+    # through the text parser: function form and infix form, literals of every magnitude
+    def lit(x):
+        return repr(x) if isinstance(x, int) else ("%r" % x)
+    tints = [i for i in INTS] + [2**53 + 3, -(2**53) - 3, 2**62 + 1, I64MAX - 2, 4611686018427387905, 123456789012345678]
+    tflts = [0.5, 2.5, -3.0, 0.1, 3.0, 9007199254740993.0, 0.0, 1.25]
+    tn = 1200 if tier == "quick" else 20000
+    for _ in range(tn):
+        k = rng.randint(1, 4)
+        mode = rng.random()
+        if mode < 0.45:  args = [rng.choice(tints) for _ in range(k)]
+        elif mode < 0.6: args = [rng.randint(-50, 50) for _ in range(k)]
+        else:            args = [rng.choice(tints + tflts) for _ in range(k)]
+        name = rng.choice(NAMES)
+        if rng.random() < 0.5:
+            text = "%s(%s)" % (name, ", ".join(lit(a) for a in args))
+        else:
+            sym = {"add": "+", "subtract": "-", "multiply": "*", "divide": "/"}[name]
+            if k < 2: args = args + [rng.choice(tints)]
+            text = (" %s " % sym).join(lit(a) for a in args[:rng.choice([2, 2, 2, 3])])
+        out.append(("(unify-text %s)" % S(text), "text"))
+    for a, b in itertools.product([2**53 + 1, I64MAX, I64MAX - 1, 4611686018427387905, -(2**53) - 1], [0, 1, 5, -1]):
+        for name, sym in (("add", "+"), ("subtract", "-"), ("multiply", "*"), ("divide", "/")):
+            out.append(("(unify-text %s)" % S("%s(%d, %d)" % (name, a, b)), "text"))
+            out.append(("(unify-text %s)" % S("%d %s %d" % (a, sym, b)), "text"))
     # outside the claim but the model must still agree: non-numbers, unbound, empty
     for name in NAMES:
         out.append(("(eval %s () (ss))" % name, "malformed"))
@@ -66,8 +90,56 @@ def cases(tier, rng):
 
 RULE = ("all ordered pairs of a 49-number universe (i64 extremes, 2^53+-1, sqrt(2^63) neighbours, +-0.0, "
         "fractions, subnormals, infinities, NaN) for the four functions; all singletons; triples over a small "
-        "universe; random lists of 1-4 numbers, literally and through variable chains; malformed argument lists. "
+        "universe; random lists of 1-4 numbers, literally and through variable chains; the same through the text parser "
+        "(parse_term of `add(..)` / `a + b`, integer literals up to i64 extremes and beyond 2^53, then unified with a fresh "
+        "variable); malformed argument lists. "
         "Results are compared by bit pattern. Non-trivial = the evaluation returns a number (no panic).")
 
 def nontrivial(case, tag, result):
-    return result.startswith("(ok")
+    return result.startswith("(ok") and "none" not in result
+
+
+# oracle on the implementation's own results, for the all-integer claims: the value is the left-to-right fold in
+# exact integer arithmetic with truncating division, whenever no intermediate value leaves the i64 range and no
+# divisor is zero (those are outside the claim)
+import re
+REL_STATS = {}
+def _fold(name, xs):
+    acc = xs[0]
+    for x in xs[1:]:
+        if name == "add": acc += x
+        elif name == "subtract": acc -= x
+        elif name == "multiply": acc *= x
+        else:
+            if x == 0: return None
+            q = abs(acc) // abs(x); acc = q if (acc < 0) == (x < 0) else -q
+        if not (I64MIN <= acc <= I64MAX): return None
+    return acc
+
+_INT = r"-?[0-9]+"
+def _expected(case, tag):
+    c = parse(case)
+    if c[0] == "eval":
+        if c[3] != ["ss"]: return None
+        if not c[2] or any(not (isinstance(a, list) and a[0] == "i") for a in c[2]): return None
+        return _fold(c[1], [int(a[1]) for a in c[2]])
+    if c[0] == "unify-text":
+        text = unS(c[1])
+        m = re.fullmatch(r"(add|subtract|multiply|divide)\((%s(?:, %s)*)\)" % (_INT, _INT), text)
+        if m: return _fold(m.group(1), [int(x) for x in m.group(2).split(", ")])
+        m = re.fullmatch(r"(%s) ([-+*/]) (%s)" % (_INT, _INT), text)
+        if m: return _fold({"+": "add", "-": "subtract", "*": "multiply", "/": "divide"}[m.group(2)], [int(m.group(1)), int(m.group(3))])
+    return None
+
+def relations(cases, impl):
+    REL_STATS.clear(); REL_STATS.update(integer_folds_checked=0)
+    for (case, tag), (out, res) in zip(cases, impl):
+        if tag == "malformed": continue
+        e = _expected(case, tag)
+        if e is None: continue
+        if any(not (I64MIN <= int(x) <= I64MAX) for x in re.findall(_INT, unS(parse(case)[1]) if case.startswith("(unify-text") else "0")): continue
+        REL_STATS["integer_folds_checked"] += 1
+        want = "(ok (i %d))" % e if case.startswith("(eval") else "(ok (some (ss - (i %d))))" % e
+        if res != want:
+            yield dict(case=case, tag=tag, why="all-integer arguments: the value is not the left-to-right integer fold %d" % e,
+                       implementation=dict(result=res))
